@@ -46,11 +46,11 @@ class Harness:
     """one CBMC query (plus its cover/witness twin)"""
     def __init__(s, name, cfile, *, defines=(), unwind=None, unwindset=(), flags=(), backend='default', timeout=600,
                  mem_gb=12, functions=(), stubs=(), bounds='', expect='pass', cover=True, obligations_note='',
-                 object_bits=12, nochecks=False, tier='quick', extra_c=(), desc=''):
+                 object_bits=12, nochecks=False, tier='quick', extra_c=(), desc='', cover_defines=()):
         s.name = name; s.cfile = cfile; s.defines = list(defines); s.unwind = unwind; s.unwindset = list(unwindset)
         s.flags = list(flags); s.backend = backend; s.timeout = timeout; s.mem_gb = mem_gb
         s.functions = list(functions); s.stubs = list(stubs); s.bounds = bounds; s.expect = expect; s.cover = cover
-        s.object_bits = object_bits; s.nochecks = nochecks; s.tier = tier; s.extra_c = list(extra_c); s.desc = desc
+        s.cover_defines = list(cover_defines); s.object_bits = object_bits; s.nochecks = nochecks; s.tier = tier; s.extra_c = list(extra_c); s.desc = desc
         s.result = None
 
 STD_CHECKS = ['--pointer-overflow-check', '--undefined-shift-check', '--signed-overflow-check', '--conversion-check'][:3]
@@ -84,6 +84,7 @@ def cbmc_cmd(h, cfile, cover=False):
     if h.unwindset: cmd += ['--unwindset', ','.join(h.unwindset)]
     if cover:
         cmd += ['-D', 'VF_COVER', '--cover', 'cover', '--no-standard-checks', '--no-unwinding-assertions']
+        for d in h.cover_defines: cmd += ['-D', d]
         # flags that change the program semantics stay; check flags are dropped
         cmd += [f for f in h.flags if not f.endswith('-check') and f not in ('--trace',)]
         return cmd
@@ -95,7 +96,7 @@ def cbmc_cmd(h, cfile, cover=False):
     elif h.backend == 'cadical': cmd += ['--sat-solver', 'cadical']
     elif h.backend == 'minisat': pass
     elif h.backend in ('z3', 'z3new'): cmd += ['--z3']
-    elif h.backend == 'cvc5': cmd += ['--cvc5']
+    elif h.backend in ('cvc5', 'cvc5int'): cmd += ['--cvc5', '--slice-formula']
     return cmd
 
 def _parse_json(out):
@@ -219,13 +220,14 @@ class Ctx:
         if r.returncode != 0: raise Broken('llvm-link failed: ' + r.stdout[-2000:])
         return out
 
-    def translate(s, ll, roots, out_name, stubs=None, stubfiles=(), models=(), opts=()):
+    def translate(s, ll, roots, out_name, stubs=None, stubfiles=(), models=(), opts=(), provided=()):
         out = os.path.join(s.work, out_name)
         cmd = [sys.executable, os.path.join(VERIF, 'vf', 'ir2c.py'), ll, '--roots', ','.join(roots), '-o', out]
         for k, v in (stubs or {}).items(): cmd += ['--stub', '%s=%s' % (k, v)]
         for f in stubfiles: cmd += ['--stubfile', f if os.path.isabs(f) else os.path.join(VERIF, 'shims', f)]
-        for m in models: cmd += ['--model', m if os.path.isabs(m) else os.path.join(VERIF, 'models', m)]
+        for m in ['base.c'] + [m for m in models if m != 'base.c']: cmd += ['--model', m if os.path.isabs(m) else os.path.join(VERIF, 'models', m)]
         cmd += list(opts)
+        for n in provided: cmd += ['--provided', n]
         t0 = time.time()
         r = subprocess.run(cmd, stdout=subprocess.PIPE, stderr=subprocess.PIPE, text=True)
         if r.returncode != 0: raise Broken('ir2c failed: ' + r.stderr[-3000:])
@@ -272,7 +274,9 @@ class Ctx:
             pc = parse_cbmc(r['out'])
             res['cover_s'] = r['secs']
             if r['timeout'] or pc['goals'] is None:
-                res['status'] = 'broken'; res['why'] = 'cover twin gave no result (%s) %s' % ('timeout' if r['timeout'] else 'error', (pc['error'] or r['err'][-300:] or r['out'][-300:]))
+                oom = 'ut of memory' in (pc['error'] or '') + r['err'] + r['out'][-2000:] or 'bad_alloc' in r['err']
+                res['status'] = 'no_verdict' if (r['timeout'] or oom) else 'broken'
+                res['why'] = 'reachability (cover) twin gave no result: %s' % ('timeout' if r['timeout'] else 'out of memory' if oom else (pc['error'] or r['err'][-300:] or r['out'][-300:]))
                 return res
             goals = [g for g in pc['goals'] if g['file'] and not g['file'].startswith('<')]
             unreached = [g for g in goals if g['status'] != 'satisfied']
@@ -284,6 +288,11 @@ class Ctx:
         if h.backend == 'z3new':
             shim = os.path.join(s.work, 'z3shim'); os.makedirs(shim, exist_ok=True)
             if not os.path.exists(shim + '/z3'): os.symlink(shutil.which('z3-new'), shim + '/z3')
+            env = dict(os.environ, PATH=shim + ':' + os.environ['PATH'])
+        if h.backend == 'cvc5int':
+            shim = os.path.join(s.work, 'cvc5shim'); os.makedirs(shim, exist_ok=True)
+            if not os.path.exists(shim + '/cvc5'):
+                open(shim + '/cvc5', 'w').write('#!/bin/sh\nexec /usr/bin/cvc5 --solve-bv-as-int=sum "$@"\n'); os.chmod(shim + '/cvc5', 0o755)
             env = dict(os.environ, PATH=shim + ':' + os.environ['PATH'])
         r = run_capped(cbmc_cmd(h, h.cfile), h.timeout, h.mem_gb, cwd=s.work, env=env)
         pc = parse_cbmc(r['out'])
@@ -306,6 +315,7 @@ class Ctx:
 
     def solve(s, jobs=None):
         todo = [h for h in s.harnesses if h.result is None and (h.tier == 'quick' or s.tier == 'thorough')]
+        if getattr(s, 'only', None): todo = [h for h in todo if any(o in h.name for o in s.only)]
         jobs = jobs or max(1, min(NCPU, len(todo)))
         with cf.ThreadPoolExecutor(jobs) as ex:
             futs = {ex.submit(s._run_one, h): h for h in todo}
